@@ -99,7 +99,10 @@ func parseCompatibleRelease(version string) ([]*constraint, error) {
 
 	// ~=1.4.2 is equivalent to >=1.4.2, <1.5.0
 	if len(v.release) >= 2 {
-		upperVersion := fmt.Sprintf("%d.%d.0", v.release[0], v.release[1]+1)
+		// ~=X.Y.Z is >=X.Y.Z, ==X.Y.*: drop the last release segment and bump the one before it
+		prefix := append([]int{}, v.release[:len(v.release)-1]...)
+		prefix[len(prefix)-1]++
+		upperVersion := releaseString(v.epoch, prefix)
 		return []*constraint{
 			{operator: ">=", version: version},
 			{operator: "<", version: upperVersion},
@@ -115,46 +118,47 @@ func parseWildcardConstraint(operator, version string) ([]*constraint, error) {
 	baseVersion := strings.TrimSuffix(version, ".*")
 
 	e := &Ecosystem{}
-	v, err := e.NewVersion(baseVersion + ".0")
+	v, err := e.NewVersion(baseVersion)
 	if err != nil {
 		return nil, err
 	}
-
-	if operator == "==" {
-		// ==1.2.* means >=1.2.0, <1.3.0
-		if len(v.release) >= 2 {
-			lowerBound := fmt.Sprintf("%d.%d.0", v.release[0], v.release[1])
-			upperBound := fmt.Sprintf("%d.%d.0", v.release[0], v.release[1]+1)
-			return []*constraint{
-				{operator: ">=", version: lowerBound},
-				{operator: "<", version: upperBound},
-			}, nil
-		}
-
-		// ==1.* means >=1.0.0, <2.0.0
-		if len(v.release) >= 1 {
-			lowerBound := fmt.Sprintf("%d.0.0", v.release[0])
-			upperBound := fmt.Sprintf("%d.0.0", v.release[0]+1)
-			return []*constraint{
-				{operator: ">=", version: lowerBound},
-				{operator: "<", version: upperBound},
-			}, nil
-		}
+	if v.prerelease != "" || v.postrelease != -1 || v.dev != -1 || v.local != "" {
+		return nil, fmt.Errorf("unsupported wildcard constraint: %s%s", operator, version)
 	}
 
-	if operator == "!=" {
-		// !=1.2.* means <1.2.0 or >=1.3.0
-		if len(v.release) >= 2 {
-			lowerBound := fmt.Sprintf("%d.%d.0", v.release[0], v.release[1])
-			upperBound := fmt.Sprintf("%d.%d.0", v.release[0], v.release[1]+1)
-			return []*constraint{
-				{operator: "<", version: lowerBound},
-				{operator: ">=", version: upperBound},
-			}, nil
-		}
+	// Prefix matching: X.Y.* covers every version >= X.Y and < X.(Y+1)
+	lowerBound := releaseString(v.epoch, v.release)
+	bumped := append([]int{}, v.release...)
+	bumped[len(bumped)-1]++
+	upperBound := releaseString(v.epoch, bumped)
+
+	switch operator {
+	case "==":
+		return []*constraint{
+			{operator: ">=", version: lowerBound},
+			{operator: "<", version: upperBound},
+		}, nil
+	case "!=":
+		// Everything outside the prefix interval
+		return []*constraint{
+			{operator: "outside", version: lowerBound + "," + upperBound},
+		}, nil
 	}
 
 	return nil, fmt.Errorf("unsupported wildcard constraint: %s%s", operator, version)
+}
+
+// releaseString renders an epoch and release segments as a version string
+func releaseString(epoch int, release []int) string {
+	parts := make([]string, len(release))
+	for i, n := range release {
+		parts[i] = fmt.Sprintf("%d", n)
+	}
+	s := strings.Join(parts, ".")
+	if epoch != 0 {
+		s = fmt.Sprintf("%d!%s", epoch, s)
+	}
+	return s
 }
 
 // String returns the string representation of the range
@@ -184,6 +188,17 @@ func (c *constraint) matches(version *Version) bool {
 	// Handle arbitrary equality (===)
 	if c.operator == "===" {
 		return version.String() == c.version
+	}
+
+	// Exclusion of a prefix interval (!=X.Y.*): below the lower or at/above the upper bound
+	if c.operator == "outside" {
+		bounds := strings.SplitN(c.version, ",", 2)
+		if len(bounds) != 2 {
+			return false
+		}
+		below := &constraint{operator: "<", version: bounds[0]}
+		above := &constraint{operator: ">=", version: bounds[1]}
+		return below.matches(version) || above.matches(version)
 	}
 
 	e := &Ecosystem{}
